@@ -6,6 +6,8 @@ package main
 // SignJSON with a real ed25519 key, every other action is a JSON edit re-marshalled in the presentation the
 // document has at that point (stale signatures are therefore real signatures of the old payload), and the
 // final document is put through VerifyJSON for the whole universe and through ListKeyIDs.
+// Records of FormSpec also have ForeignEntry / ForeignEntity actions (entries that are no signatures, by form:
+// world.go foreignEntry / foreignEntity) and a key ID KA of another algorithm in the universe.
 
 import (
 	"encoding/json"
@@ -145,6 +147,10 @@ func opLetters(h [][]string) string {
 			b.WriteByte('S')
 		case "ForeignSign":
 			b.WriteByte('F')
+		case "ForeignEntry":
+			b.WriteByte('E')
+		case "ForeignEntity":
+			b.WriteByte('W')
 		case "Mutate":
 			b.WriteByte('M')
 		case "Insert":
@@ -173,6 +179,15 @@ func c02Replay(seed int64, raw json.RawMessage) hx.Result {
 	rng := rand.New(rand.NewSource(seedOf(seed, raw)))
 	w := newWorld(rng, 2, 2, 3)
 	tk := newTokens(rng, []string{"a", "b", "c"})
+	formsFamily := false
+	for _, a := range r.Hist {
+		formsFamily = formsFamily || a[0] == "ForeignEntry" || a[0] == "ForeignEntity"
+	}
+	if formsFamily {
+		// FormSpec: the universe has a key ID of another algorithm (drawn here so that the concrete values of the
+		// records of the other family stay what they were)
+		w.addAlgKid(rng)
+	}
 
 	d := &document{top: map[string]interface{}{}, pres: r.Start.Pres}
 	for _, pool := range []map[string]interface{}{tk.plain, tk.nested} {
@@ -226,6 +241,18 @@ func c02Replay(seed int64, raw json.RawMessage) hx.Result {
 			undefined[a[1]+"|"+a[2]] = hasRaw(d.top) && a[3] != "junk"
 			d.foreignSign(w.ent[a[1]], w.kid[a[2]], w.priv[a[3]], rng.Intn(4) == 0, rng)
 			signedHow[a[1]+"|"+a[2]], signedKey[a[1]+"|"+a[2]] = "ForeignSign", a[3]
+		case "ForeignEntry":
+			// an entry that is no signature, in the form a[3]
+			d.foreignEntry(w.ent[a[1]], w.kid[a[2]], a[3], rng)
+			signedHow[a[1]+"|"+a[2]], signedKey[a[1]+"|"+a[2]] = "ForeignEntry", "junk"
+			undefined[a[1]+"|"+a[2]] = false
+		case "ForeignEntity":
+			// signatures[entity] as a whole becomes something that is no object, in the form a[3]
+			d.foreignEntity(w.ent[a[1]], a[3], rng)
+			for k := range w.kid {
+				signedHow[a[1]+"|"+k], signedKey[a[1]+"|"+k] = "ForeignEntity", "junk"
+				undefined[a[1]+"|"+k] = false
+			}
 		case "Mutate", "Insert", "NestedEdit":
 			d.top[tk.member[a[1]]] = tk.value(a[1], a[2])
 			d.rerender(rng)
@@ -247,7 +274,7 @@ func c02Replay(seed int64, raw json.RawMessage) hx.Result {
 		}
 	}
 
-	obs := w.observe(d.bytes)
+	obs := w.observe(d.bytes, d.whole())
 	ctxInfo := map[string]interface{}{"document": string(d.bytes), "entities": w.ent, "keyids": w.kid}
 	if obs.Panic != "" {
 		return hx.Result{OK: false, Key: d.key("verify/panic/after=" + last), What: obs.Panic + " on " + string(d.bytes), Extra: ctxInfo}
@@ -311,5 +338,14 @@ func c02Replay(seed int64, raw json.RawMessage) hx.Result {
 				Want: r.Kids, Got: obs.Kids, Extra: ctxInfo}
 		}
 	}
-	return hx.Result{OK: true, NT: fmt.Sprintf("%s|%s|%s|%d", r.Start.Sigs, opLetters(r.Hist), d.pres, len(gotL))}
+	nt := fmt.Sprintf("%s|%s|%s|%d", r.Start.Sigs, opLetters(r.Hist), d.pres, len(gotL))
+	if formsFamily {
+		// which forms were left where (relative to the first signer's place), in order
+		for _, a := range r.Hist {
+			if a[0] == "ForeignEntry" || a[0] == "ForeignEntity" {
+				nt += "|" + a[1] + a[2] + "=" + a[3]
+			}
+		}
+	}
+	return hx.Result{OK: true, NT: nt}
 }
